@@ -1024,7 +1024,7 @@ pub fn get_random_module(&self, source: &mut GenerationSource) -> (r: Result<VfT
             let chunk = self.output@.subrange(old(self).output@.len() as int, self.output@.len() as int);
             assert(self.output@ =~= old(self).output@ + chunk);
             assert(chunk.len() >= 1 && chunk[0] == ref_code(opcode) as u8); // @C11 @C04 @C12 @C17
-            assert(enc_ok(opcode, chunk)); // @C04
+            assert(enc_ok(opcode, chunk)); // @C04 @C11 @C17
             assert(self.rel(ref_step(opcode, RefArg { idx: 0 }, r))); // @C17
             assert(self.emit_post(old(self), r, opcode, opcode, RefArg { idx: 0 }, chunk));
         }
@@ -1062,7 +1062,7 @@ pub fn get_random_module(&self, source: &mut GenerationSource) -> (r: Result<VfT
             assert(self.output@ =~= old(self).output@ + chunk);
             assert(chunk.len() >= 1 && chunk[0] == ref_code(opcode) as u8); // @C11 @C04 @C12 @C17
             if opcode == OpcodeKind::String || opcode == OpcodeKind::Unicode { assert(chunk.subrange(1, chunk.len() as int) =~= gtext); }
-            assert(enc_ok(opcode, chunk)); // @C04
+            assert(enc_ok(opcode, chunk)); // @C04 @C11 @C17
             assert(self.rel(ref_step(opcode, RefArg { idx: 0 }, r))); // @C17
             assert(self.emit_post(old(self), r, opcode, opcode, RefArg { idx: 0 }, chunk));
         }
@@ -1098,7 +1098,7 @@ pub fn get_random_module(&self, source: &mut GenerationSource) -> (r: Result<VfT
             let chunk = self.output@.subrange(old(self).output@.len() as int, self.output@.len() as int);
             assert(self.output@ =~= old(self).output@ + chunk);
             assert(chunk.subrange(1, chunk.len() as int) =~= arg_bytes@);
-            assert(enc_ok(OpcodeKind::Global, chunk)); // @C04
+            assert(enc_ok(OpcodeKind::Global, chunk)); // @C04 @C11 @C17
             assert(self.emit_post(old(self), r, OpcodeKind::Global, OpcodeKind::Global, RefArg { idx: 0 }, chunk));
         }
 //@endfn
@@ -1140,7 +1140,7 @@ pub fn get_random_module(&self, source: &mut GenerationSource) -> (r: Result<VfT
             assert(self.output@ =~= old(self).output@ + chunk);
             assert(chunk.subrange(1, chunk.len() as int) =~= arg@);
             assert(chunk.len() == 1 + arg@.len());
-            assert(enc_ok(chosen, chunk)); // @C04
+            assert(enc_ok(chosen, chunk)); // @C04 @C11 @C17
             assert(ref_proto(chosen) <= ver_num(old(self).state.version)); // @C05
             assert(self.emit_post(old(self), r, chosen, chosen, RefArg { idx: 0 }, chunk));
         }
@@ -1193,7 +1193,7 @@ pub fn get_random_module(&self, source: &mut GenerationSource) -> (r: Result<VfT
             let chunk = self.output@.subrange(old(self).output@.len() as int, self.output@.len() as int);
             assert(self.output@ =~= old(self).output@ + chunk);
             assert(chunk.subrange(1, chunk.len() as int) =~= gtext);
-            assert(enc_ok(opcode, chunk)); // @C04
+            assert(enc_ok(opcode, chunk)); // @C04 @C11 @C17
             assert(chunk.len() >= 1 && chunk[0] == ref_code(opcode) as u8); // @C04 @C11 @C12 @C17
             assert(self.rel(ref_step(opcode, RefArg { idx: 0 }, r))); // @C17
             assert(self.emit_post(old(self), r, opcode, opcode, RefArg { idx: 0 }, chunk));
@@ -1238,7 +1238,7 @@ pub fn get_random_module(&self, source: &mut GenerationSource) -> (r: Result<VfT
             let chunk = self.output@.subrange(old(self).output@.len() as int, self.output@.len() as int);
             assert(self.output@ =~= old(self).output@ + chunk);
             assert(chunk.subrange(1, chunk.len() as int) =~= gtext);
-            assert(enc_ok(opcode, chunk)); // @C04
+            assert(enc_ok(opcode, chunk)); // @C04 @C11 @C17
             assert(chunk.len() >= 1 && chunk[0] == ref_code(opcode) as u8); // @C04 @C11 @C12 @C17
             assert(ref_pre(opcode, ga, r)); // @C02 @C01
             assert(self.rel(ref_step(opcode, ga, r))); // @C17 @C02
@@ -1300,7 +1300,7 @@ pub fn get_random_module(&self, source: &mut GenerationSource) -> (r: Result<VfT
             let chunk = self.output@.subrange(old(self).output@.len() as int, self.output@.len() as int);
             assert(self.output@ =~= old(self).output@ + chunk);
             assert(chunk.subrange(1, chunk.len() as int) =~= gtext);
-            assert(enc_ok(opcode, chunk)); // @C04
+            assert(enc_ok(opcode, chunk)); // @C04 @C11 @C17
             assert(chunk.len() >= 1 && chunk[0] == ref_code(opcode) as u8); // @C04 @C11 @C12 @C17
             assert(self.rel(ref_step(opcode, RefArg { idx: gidx }, r))); // @C17 @C02 @C01
             assert(self.emit_post(old(self), r, opcode, opcode, RefArg { idx: gidx }, chunk));
@@ -1406,7 +1406,7 @@ pub fn get_random_module(&self, source: &mut GenerationSource) -> (r: Result<VfT
             let chunk = self.output@.subrange(old(self).output@.len() as int, self.output@.len() as int);
             assert(self.output@ =~= old(self).output@ + chunk);
             assert(chunk.subrange(1, chunk.len() as int) =~= gtext);
-            assert(enc_ok(opcode, chunk)); // @C04
+            assert(enc_ok(opcode, chunk)); // @C04 @C11 @C17
             assert(chunk.len() >= 1 && chunk[0] == ref_code(opcode) as u8); // @C04 @C11 @C12 @C17
             assert(self.rel(ref_step(opcode, RefArg { idx: 0 }, r))); // @C17
             assert(self.emit_post(old(self), r, opcode, opcode, RefArg { idx: 0 }, chunk));
@@ -1421,7 +1421,7 @@ pub fn get_random_module(&self, source: &mut GenerationSource) -> (r: Result<VfT
             let chunk = self.output@.subrange(old(self).output@.len() as int, self.output@.len() as int);
             assert(self.output@ =~= old(self).output@ + chunk);
             assert(chunk.subrange(1, chunk.len() as int) =~= gtext);
-            assert(enc_ok(opcode, chunk)); // @C04
+            assert(enc_ok(opcode, chunk)); // @C04 @C11 @C17
             assert(chunk.len() >= 1 && chunk[0] == ref_code(opcode) as u8); // @C04 @C11 @C12 @C17
             assert(self.rel(ref_step(opcode, RefArg { idx: 0 }, r))); // @C17
             assert(self.emit_post(old(self), r, opcode, opcode, RefArg { idx: 0 }, chunk));
@@ -1808,7 +1808,7 @@ pub fn get_random_module(&self, source: &mut GenerationSource) -> (r: Result<VfT
             assert(self.output@ =~= old(self).output@ + chunk);
             assert(chunk.subrange(1, chunk.len() as int) =~= arg@);
             assert(chunk.len() == 1 + arg@.len());
-            assert(enc_ok(chosen, chunk)); // @C04
+            assert(enc_ok(chosen, chunk)); // @C04 @C11 @C17
             lemma_op_of_byte(chosen);
             assert(old(self).chunk_ok_u(chunk));
         }
@@ -1834,7 +1834,7 @@ pub fn get_random_module(&self, source: &mut GenerationSource) -> (r: Result<VfT
             let chunk = self.output@.subrange(old(self).output@.len() as int, self.output@.len() as int);
             assert(self.output@ =~= old(self).output@ + chunk);
             assert(chunk.subrange(1, chunk.len() as int) =~= arg_bytes@);
-            assert(enc_ok(OpcodeKind::Global, chunk)); // @C04
+            assert(enc_ok(OpcodeKind::Global, chunk)); // @C04 @C11 @C17
             lemma_op_of_byte(OpcodeKind::Global);
             assert(old(self).chunk_ok_u(chunk));
         }
@@ -1861,7 +1861,7 @@ pub fn get_random_module(&self, source: &mut GenerationSource) -> (r: Result<VfT
         proof {
             let chunk = self.output@.subrange(old(self).output@.len() as int, self.output@.len() as int);
             assert(self.output@ =~= old(self).output@ + chunk);
-            if chunk.len() > 0 { assert(enc_ok(opcode, chunk)); /* @C04 */ lemma_op_of_byte(opcode); }
+            if chunk.len() > 0 { assert(enc_ok(opcode, chunk)); /* @C04 @C11 */ lemma_op_of_byte(opcode); }
             assert(old(self).chunk_ok_u(chunk));
         }
 //@arm _
@@ -1893,7 +1893,7 @@ pub fn get_random_module(&self, source: &mut GenerationSource) -> (r: Result<VfT
             let chunk = self.output@.subrange(old(self).output@.len() as int, self.output@.len() as int);
             assert(self.output@ =~= old(self).output@ + chunk);
             if opcode == OpcodeKind::String || opcode == OpcodeKind::Unicode { assert(chunk.subrange(1, chunk.len() as int) =~= gtext); }
-            if chunk.len() > 0 { assert(enc_ok(opcode, chunk)); /* @C04 */ lemma_op_of_byte(opcode); }
+            if chunk.len() > 0 { assert(enc_ok(opcode, chunk)); /* @C04 @C11 */ lemma_op_of_byte(opcode); }
             assert(old(self).chunk_ok_u(chunk));
         }
 //@arm String
@@ -1939,7 +1939,7 @@ pub fn get_random_module(&self, source: &mut GenerationSource) -> (r: Result<VfT
             assert(g_out =~= old(self).output@ + e);
             if e.len() > 0 {
                 assert(e.subrange(1, e.len() as int) =~= gtext);
-                assert(enc_ok(opcode, e)); // @C04
+                assert(enc_ok(opcode, e)); // @C04 @C11
                 lemma_op_of_byte(opcode);
                 assert(old(self).chunk_ok_u(e)); // @C04 @C10
             }
@@ -1957,7 +1957,7 @@ pub fn get_random_module(&self, source: &mut GenerationSource) -> (r: Result<VfT
             let e = g_out.subrange(old(self).output@.len() as int, g_out.len() as int);
             assert(g_out =~= old(self).output@ + e);
             if e.len() > 0 {
-                assert(enc_ok(opcode, e)); // @C04
+                assert(enc_ok(opcode, e)); // @C04 @C11
                 lemma_op_of_byte(opcode);
                 assert(old(self).chunk_ok_u(e)); // @C04 @C10
             }
@@ -1997,7 +1997,7 @@ pub fn get_random_module(&self, source: &mut GenerationSource) -> (r: Result<VfT
             assert(g_out =~= old(self).output@ + e);
             if e.len() > 0 {
                 assert(e.subrange(1, e.len() as int) =~= gtext);
-                assert(enc_ok(opcode, e)); // @C04
+                assert(enc_ok(opcode, e)); // @C04 @C11
                 lemma_op_of_byte(opcode);
                 assert(old(self).chunk_ok_u(e)); // @C04 @C10
             }
@@ -2014,7 +2014,7 @@ pub fn get_random_module(&self, source: &mut GenerationSource) -> (r: Result<VfT
             let e = g_out.subrange(old(self).output@.len() as int, g_out.len() as int);
             assert(g_out =~= old(self).output@ + e);
             if e.len() > 0 {
-                assert(enc_ok(opcode, e)); // @C04
+                assert(enc_ok(opcode, e)); // @C04 @C11
                 lemma_op_of_byte(opcode);
                 assert(old(self).chunk_ok_u(e)); // @C04 @C10
             }
@@ -2032,7 +2032,7 @@ pub fn get_random_module(&self, source: &mut GenerationSource) -> (r: Result<VfT
             let e = g_out.subrange(old(self).output@.len() as int, g_out.len() as int);
             assert(g_out =~= old(self).output@ + e);
             if e.len() > 0 {
-                assert(enc_ok(opcode, e)); // @C04
+                assert(enc_ok(opcode, e)); // @C04 @C11
                 lemma_op_of_byte(opcode);
                 assert(old(self).chunk_ok_u(e)); // @C04 @C10
             }
@@ -2056,7 +2056,7 @@ pub fn get_random_module(&self, source: &mut GenerationSource) -> (r: Result<VfT
             assert(g_out =~= old(self).output@ + e);
             if e.len() > 0 {
                 assert(e.subrange(1, e.len() as int) =~= gtext);
-                assert(enc_ok(opcode, e)); // @C04
+                assert(enc_ok(opcode, e)); // @C04 @C11
                 lemma_op_of_byte(opcode);
                 assert(old(self).chunk_ok_u(e)); // @C04 @C10
             }
@@ -2077,7 +2077,7 @@ pub fn get_random_module(&self, source: &mut GenerationSource) -> (r: Result<VfT
             let e = g_out.subrange(old(self).output@.len() as int, g_out.len() as int);
             assert(g_out =~= old(self).output@ + e);
             if e.len() > 0 {
-                assert(enc_ok(opcode, e)); // @C04
+                assert(enc_ok(opcode, e)); // @C04 @C11
                 lemma_op_of_byte(opcode);
                 assert(old(self).chunk_ok_u(e)); // @C04 @C10
             }
@@ -2097,7 +2097,7 @@ pub fn get_random_module(&self, source: &mut GenerationSource) -> (r: Result<VfT
             let e = g_out.subrange(old(self).output@.len() as int, g_out.len() as int);
             assert(g_out =~= old(self).output@ + e);
             if e.len() > 0 {
-                assert(enc_ok(opcode, e)); // @C04
+                assert(enc_ok(opcode, e)); // @C04 @C11
                 lemma_op_of_byte(opcode);
                 assert(old(self).chunk_ok_u(e)); // @C04 @C10
             }
@@ -2115,7 +2115,7 @@ pub fn get_random_module(&self, source: &mut GenerationSource) -> (r: Result<VfT
             let e = g_out.subrange(old(self).output@.len() as int, g_out.len() as int);
             assert(g_out =~= old(self).output@ + e);
             if e.len() > 0 {
-                assert(enc_ok(opcode, e)); // @C04
+                assert(enc_ok(opcode, e)); // @C04 @C11
                 lemma_op_of_byte(opcode);
                 assert(old(self).chunk_ok_u(e)); // @C04 @C10
             }
@@ -2134,7 +2134,7 @@ pub fn get_random_module(&self, source: &mut GenerationSource) -> (r: Result<VfT
             let e = g_out.subrange(old(self).output@.len() as int, g_out.len() as int);
             assert(g_out =~= old(self).output@ + e);
             if e.len() > 0 {
-                assert(enc_ok(opcode, e)); // @C04
+                assert(enc_ok(opcode, e)); // @C04 @C11
                 lemma_op_of_byte(opcode);
                 assert(old(self).chunk_ok_u(e)); // @C04 @C10
             }
@@ -2153,7 +2153,7 @@ pub fn get_random_module(&self, source: &mut GenerationSource) -> (r: Result<VfT
             let e = g_out.subrange(old(self).output@.len() as int, g_out.len() as int);
             assert(g_out =~= old(self).output@ + e);
             if e.len() > 0 {
-                assert(enc_ok(opcode, e)); // @C04
+                assert(enc_ok(opcode, e)); // @C04 @C11
                 lemma_op_of_byte(opcode);
                 assert(old(self).chunk_ok_u(e)); // @C04 @C10
             }
@@ -2175,7 +2175,7 @@ pub fn get_random_module(&self, source: &mut GenerationSource) -> (r: Result<VfT
             assert(g_out =~= old(self).output@ + e);
             if e.len() > 0 {
                 assert(e.subrange(1, e.len() as int) =~= gtext);
-                assert(enc_ok(opcode, e)); // @C04
+                assert(enc_ok(opcode, e)); // @C04 @C11
                 lemma_op_of_byte(opcode);
                 assert(old(self).chunk_ok_u(e)); // @C04 @C10
             }
@@ -2196,7 +2196,7 @@ pub fn get_random_module(&self, source: &mut GenerationSource) -> (r: Result<VfT
             assert(g_out =~= old(self).output@ + e);
             if e.len() > 0 {
                 assert(e.subrange(1, e.len() as int) =~= gtext);
-                assert(enc_ok(opcode, e)); // @C04
+                assert(enc_ok(opcode, e)); // @C04 @C11
                 lemma_op_of_byte(opcode);
                 assert(old(self).chunk_ok_u(e)); // @C04 @C10
             }
@@ -2216,7 +2216,7 @@ pub fn get_random_module(&self, source: &mut GenerationSource) -> (r: Result<VfT
             let e = g_out.subrange(old(self).output@.len() as int, g_out.len() as int);
             assert(g_out =~= old(self).output@ + e);
             if e.len() > 0 {
-                assert(enc_ok(opcode, e)); // @C04
+                assert(enc_ok(opcode, e)); // @C04 @C11
                 lemma_op_of_byte(opcode);
                 assert(old(self).chunk_ok_u(e)); // @C04 @C10
             }
